@@ -358,6 +358,15 @@ def leadSpec (cells : Nat → Val) (ign : Bool) (dflt : Val) (offset : Int) (_pr
   if offset < 0 then dflt
   else ((((x :: post).map cells).drop offset.toNat).find? (keepV ign)).getD dflt
 
+/-- what RANK & co. need to know about the ORDER BY equivalence on a (sorted) partition: it is
+    symmetric and transitive, and peers are adjacent — if `y` comes before `z` comes before `x` and
+    `y`, `x` are peers, so are `y`, `z` (a list sorted by a comparison whose ties are `eqv` has this
+    shape).  Without ORDER BY (`eqv = fun _ _ => false`) it holds trivially. -/
+structure Peers (eqv : Nat → Nat → Bool) (p : List Nat) : Prop where
+  symm : ∀ a b, eqv a b = true → eqv b a = true
+  trans : ∀ a b c, eqv a b = true → eqv b c = true → eqv a c = true
+  contig : ∀ y z x, [y, z, x].Sublist p → eqv y x = true → eqv y z = true
+
 def rowNumberSpec (pre : List Nat) (_x : Nat) (_post : List Nat) : Nat := pre.length + 1
 
 /-- RANK: one more than the number of preceding rows that are not peers of the current row -/
@@ -387,6 +396,10 @@ def tileStart (q r b : Nat) : Nat := b * q + min b r
 /-- aggregate OVER: the aggregate receives the cells of the frame's rows, in partition order -/
 def aggSpec {β : Type} (cells : Nat → Val) (agg : Nat → List Val → β) (w : Window) (pre : List Nat) (x : Nat) (post : List Nat) : β :=
   agg x ((frameRows w pre x post).map cells)
+
+/-- no row of a partition of `len` rows has a frame whose end lies more than one position before its start -/
+def NoInvertedFrame (w : Window) (len : Nat) : Prop :=
+  ∀ k, k < len → 0 ≤ (frameBounds w len k).2 - (frameBounds w len k).1 + 1
 
 /-- what LAST_VALUE computes today: the frame mirrored around the current row -/
 def flipBound : Bound → Bound
